@@ -32,6 +32,7 @@ for sid in ids:
     try:
         c = meta["property"]
         t0 = time.time()
+        repo_env += "VERIF_EVIDENCE_DIR=/verif/.work/evidence_seeded/%s VERIF_REPLAYS_DIR=/verif/.work/replays_seeded/%s " % (sid, sid)
         rc, o = sh("cd %s && %s./check %s quick" % (os.environ.get("VERIF_ROOT", "/verif"), repo_env, c))
         lines = [l for l in o.splitlines() if l.startswith(("VIOLATION", "KNOWN-FINDING", "ENGINE-ERROR", "OK "))]
         meta["checks_quick"] = {c: {"exit": rc, "lines": lines[:6], "wall_s": round(time.time() - t0)}}
